@@ -69,11 +69,17 @@ def rng_restore(rng: random.Random, st) -> None:
     rng._recent_texts = list(st[1])
 
 
+NUMERIC = {"0": 0, "0.0": 0.0, "-0.0": -0.0, "1": 1, "1.0": 1.0, "2.5": 2.5, "-3": -3, "1e+20": 1e20,
+           "inf": float("inf"), "10": 10, "0.1": 0.1}
+
+
 def _fresh_text(rng: random.Random, maxlen: int = 8) -> str:
     r = rng.random()
     n = rng.randrange(0, maxlen + 1)
     if r < 0.08:
         return ""
+    if r < 0.11:
+        return rng.choice(list(NUMERIC))          # the text of a number (see mk_child_text)
     if r < 0.65:
         return "".join(rng.choice(META_ALPHABET) for _ in range(n))
     if r < 0.8:
@@ -116,6 +122,14 @@ def _pick(s: str) -> int:
 
 def mk_text(s: str):
     return StrSub(s) if _pick(s) % 5 == 0 else s
+
+
+def mk_child_text(s: str):
+    """a plain-text CHILD: when the text is that of a number, sometimes the number itself (the
+    library stores str(number): falsy numbers 0, 0.0, -0.0 included)"""
+    if s in NUMERIC and str(NUMERIC[s]) == s and (len(s) + ord(s[-1])) % 2 == 0:
+        return NUMERIC[s]
+    return mk_text(s)
 
 
 def mk_html(s: str):
@@ -167,28 +181,38 @@ class CustomReprObj(CustomObj):
         return self.s
 
 
-def build(d: Any) -> Any:
+def build(d: Any, share: bool = False, _memo: dict | None = None) -> Any:
+    """Live objects of a description.  With share=True, a Tag / HTML / self-rendering child whose
+    description is EQUAL to one built earlier in the same call may be the very same object
+    (about half of such repeats, decided by the description): the tree is then a DAG, which every
+    read-only operation must treat exactly like the tree with separate equal objects.  Only for
+    read-only uses (a mutation would show at both places)."""
+    if share and _memo is None:
+        _memo = {}
     k = d[0]
+    if share and k in "GHR":
+        key = repr(d)
+        if key in _memo and _pick(key[:80]) % 2 == 0:
+            return _memo[key]
     if k == "T":
         return mk_text(d[1])
     if k == "H":
-        return mk_html(d[1])
-    if k == "R":
-        return mk_repr(d[1])
-    if k == "M":
+        o = mk_html(d[1])
+    elif k == "R":
+        o = mk_repr(d[1])
+    elif k == "M":
         if d[1] is None:
             return MetadataNode()
         return htmltools.HTMLDependency(**d[1])
-    if k == "G":
+    elif k == "G":
         _, name, ws, attrs, kids = d
-        t = Tag(name, *[build(x) for x in kids], _add_ws=ws)
+        o = Tag(name, *[mk_child_text(x[1]) if x[0] == "T" else build(x, share, _memo) for x in kids], _add_ws=ws)
         for key, (m, v) in attrs:
             # stored as is (bypassing name normalisation, which is C15's subject)
-            dict.__setitem__(t.attrs, key, mk_html(v) if m == "H" else mk_text(v))
-        return t
-    if k == "C":
+            dict.__setitem__(o.attrs, key, mk_html(v) if m == "H" else mk_text(v))
+    elif k == "C":
         _, sh, exp, as_list = d
-        exp_b = [build(x) for x in exp]
+        exp_b = [build(x, share, _memo) for x in exp]
         if sh is None:
             if len(exp_b) == 2 and as_list:      # some objects are str subclasses that define tagify()
                 o = CustomStrObj("<own text>")
@@ -196,7 +220,41 @@ def build(d: Any) -> Any:
                 return o
             return CustomObj(exp_b, as_list)
         return CustomReprObj(exp_b, as_list, sh)
-    raise ValueError(d)
+    else:
+        raise ValueError(d)
+    if share and k in "GHR":
+        _memo.setdefault(repr(d), o)
+    return o
+
+
+def render_routes(x) -> list:
+    """every public way of getting the markup of a Tag / TagList with the default layout arguments:
+    (route name, thunk)"""
+    return [("get_html_string()", lambda: x.get_html_string()),
+            ("tagify().get_html_string()", lambda: x.tagify().get_html_string()),
+            ("render()['html']", lambda: x.render()["html"]),
+            ("str()", lambda: str(x)),
+            ("repr()", lambda: repr(x)),
+            ("_repr_html_()", lambda: x._repr_html_())]
+
+
+def routes_disagree(x) -> str | None:
+    """All routes must give the same text (C08/C09: tagify() of a tree is a structural copy with objects
+    expanded; str/repr/_repr_html_/render are get_html_string of that copy in the default static
+    dependency mode).  A tree holding un-expanded tagifiable objects cannot be rendered directly
+    (RuntimeError): the direct route is then exempt.  Returns a description of the first
+    disagreement, or None."""
+    import htmltools as _h
+    if getattr(_h, "html_dependency_render_mode", "static") != "static":
+        return None
+    rs = [(n, safe_call(f)) for n, f in render_routes(x)]
+    base = rs[1][1]
+    for n, r in rs:
+        if n == "get_html_string()" and r == ("err", 6) and base[0] == "ok":
+            continue
+        if r != base:
+            return f"{n} gives {r!r} but tagify().get_html_string() gives {base!r}"
+    return None
 
 
 def to_sx(d: Any, meta=lambda payload: []) -> Any:
@@ -282,8 +340,10 @@ def rand_attrs(rng: random.Random, html_ok: bool = True) -> list:
 
 def rand_tree(rng: random.Random, depth: int, *, leaves: str = "THRM", names: str = "bivsc",
               custom: bool = False, valid_nesting: bool = False, parent_ws: bool = True,
-              flip_ws: float = 0.15, maxkids: int = 4) -> Any:
-    """A random tag description."""
+              flip_ws: float = 0.15, maxkids: int = 4, dup: float = 0.06) -> Any:
+    """A random tag description.  With probability dup a child is repeated (an equal description at a
+    second position of the same child list: what a content- or identity-keyed memo needs in order
+    to show; build(share=True) may make the two the same object)."""
     name, ws = rand_name(rng, names)
     if rng.random() < flip_ws:
         ws = not ws
@@ -292,7 +352,9 @@ def rand_tree(rng: random.Random, depth: int, *, leaves: str = "THRM", names: st
     nk = 0 if depth <= 0 else rng.choice([0, 1, 1, 2, 2, 3, maxkids])
     kids = [rand_child(rng, depth - 1, leaves=leaves, names=names, custom=custom,
                        valid_nesting=valid_nesting, parent_ws=ws, flip_ws=flip_ws,
-                       maxkids=maxkids) for _ in range(nk)]
+                       maxkids=maxkids, dup=dup) for _ in range(nk)]
+    if kids and rng.random() < dup:
+        kids.insert(rng.randrange(0, len(kids) + 1), rng.choice(kids))
     return ("G", name, ws, rand_attrs(rng), kids)
 
 
